@@ -386,10 +386,11 @@ impl<'w> ScriptedLoader<'w> {
             content: Arc::from(bytes),
             mtime: None,
             specifier: fs,
+            // the pseudo header "#empty-map" asks for `Some({})`
             maybe_headers: if headers.is_empty() {
               None
             } else {
-              Some(headers.into_iter().collect())
+              Some(headers.into_iter().filter(|(k, _)| k != "#empty-map").collect())
             },
           })),
           desc,
